@@ -128,6 +128,8 @@ class C09(Prop):
             "deflate": gen.deflate_opt(),
             # an earlier connection in this process (same WebSocket object or another) and how it ended
             "prelude": gen.prelude(6),
+            # constructor arguments that only shape the upgrade request
+            "wsopts_noise": gen.wsopts_noise(),
             # a second live connection in the same process (interleaved with this one, or blocked in a send)
             "companion": gen.companion(15),
         })
